@@ -29,14 +29,16 @@
         it), `e?` (`question_mark`); record literals (`record`) and field access (`access`);
       - script-function calls (`Value::Call`; the callee's structured MIR runs from a store
         holding its parameters);
+      - list literals (`list`; lists are shared handles and this model has no heap: the `push`
+        through the cloned handle carries the temporary it was cloned from as a ghost
+        annotation) and `for` (`r#for`: `get(index)` per iteration, increment block);
       - f-strings (`f_string`: parts converted and appended one after the other);
       - enum constructors `E.V(args…)` (`enum_constructor` + `make_enum`);
       - `match` (`r#match` / `match_case`): guard chains per discriminant with the `_` arms
         woven in, in source order; shared arm blocks.
   * the temporary counter `tmp_idx` (both `tmp()` and `undropped_tmp()` bump it).
 
-  Not modelled in this version (`lowerE` returns `none`): `for` and list literals (lists are shared
-  handles: they need a heap); a `match` with a pattern naming a variant the examinee's type does not have; the `stack_slots` bookkeeping and the `drop` instructions (they
+  Not modelled in this version (`lowerE` returns `none`): a `match` with a pattern naming a variant the examinee's type does not have; the `stack_slots` bookkeeping and the `drop` instructions (they
   have no effect on the order of host calls).
 
   The semantics of structured MIR is the relation `ExecC` below (big-step, the
@@ -66,6 +68,9 @@ inductive Value
   | not (x : Var)
   | neg (x : Var)
   | callRt (f : Nat) (args : List Var)
+  | listNew                          -- `CallRuntime` of `List.new` (pure)
+  | listGet (l i : Var)              -- `CallRuntime` of `List.get` (pure)
+  | idxAdd (a b : Var)               -- `BinOp Add` on the `u64` loop index (no `i32` wrap)
   | toStr (x : Var)                  -- `CallRuntime` of the type's `to_string` (pure, not a logged host call)
   | append (a b : Var)               -- `CallRuntime` of `String.append` (pure)
   | call (f : Nat) (args : List Var) -- `Value::Call`: a script function (run by `EvalV`, not by `evalValue`)
@@ -90,6 +95,12 @@ inductive Stm
   | assignField (to : Var) (i : Nat) (v : Value)
   /-- `switch x [(k, thn)] default els` on a discriminant -/
   | iteD (x : Var) (k : Nat) (thn els : List Stm)
+  /-- `unit = push(alias, elem)`: lists are shared handles and this model has no heap, so the
+      push through the cloned handle `alias` carries, as a ghost annotation, the temporary
+      `orig` it was cloned from, and appends there -/
+  | push (alias orig elem unitTmp : Var)
+  /-- `for`: `cond; switch d [(0, body; incr; jump cond)] default cont` -/
+  | forL (cond : List Stm) (d : Var) (body incr : List Stm)
   /-- `match`: `switch d [(k, chain_k)…] default dflt`; every chain ends by jumping to one of
       the shared arm blocks `arms[i]` (an empty `dflt` stands for "no default") -/
   | mtch (d : Var) (chains : List GChain) (dflt : List GStep) (arms : List (List Stm))
@@ -142,6 +153,13 @@ def evalValue (σ : Store) : Value → Option (Trace × Val)
   | .callRt f args =>
     let vs := args.map σ
     (hostSem f vs).map (fun v => ([⟨f, vs⟩], v))
+  | .listNew => some ([], .list [])
+  | .listGet l i => match σ l, σ i with
+    | .list xs, .int j => if 0 ≤ j then some ([], .opt (xs[j.toNat]?)) else none
+    | _, _ => none
+  | .idxAdd a b => match σ a, σ b with
+    | .int x, .int y => some ([], .int (x + y))
+    | _, _ => none
   | .toStr x => (display (σ x)).map (fun s => ([], .str s))
   | .append a b => match σ a, σ b with
     | .str s, .str t => some ([], .str (s ++ t))
@@ -203,6 +221,17 @@ inductive ExecS (P : Prog) : Store → Stm → Trace → Outcome → Prop
       ExecS P σ (.assignField x i v) t (.normal (σ.set x val))
   | iteDThen {σ x k thn els t o} : σ x = .int k → ExecC P σ thn t o → ExecS P σ (.iteD x k thn els) t o
   | iteDElse {σ x k d thn els t o} : σ x = .int d → d ≠ k → ExecC P σ els t o → ExecS P σ (.iteD x k thn els) t o
+  | push {σ alias orig elem u xs n} : σ orig = .list xs → σ elem = .int n →
+      ExecS P σ (.push alias orig elem u) [] (.normal (σ.set orig (.list (xs ++ [n]))))
+  | forDone {σ cond d body incr t σ1 k} :
+      ExecC P σ cond t (.normal σ1) → σ1 d = .int k → k ≠ 0 → ExecS P σ (.forL cond d body incr) t (.normal σ1)
+  | forBodyRet {σ cond d body incr t1 σ1 t2 v} :
+      ExecC P σ cond t1 (.normal σ1) → σ1 d = .int 0 → ExecC P σ1 body t2 (.returned v) →
+      ExecS P σ (.forL cond d body incr) (t1 ++ t2) (.returned v)
+  | forStep {σ cond d body incr t1 σ1 t2 σ2 t3 σ3 t4 o} :
+      ExecC P σ cond t1 (.normal σ1) → σ1 d = .int 0 → ExecC P σ1 body t2 (.normal σ2) →
+      ExecC P σ2 incr t3 (.normal σ3) → ExecS P σ3 (.forL cond d body incr) t4 o →
+      ExecS P σ (.forL cond d body incr) (t1 ++ t2 ++ t3 ++ t4) o
   | mtchArm {σ d k chains dflt arms t1 a σ1 code t2 o} :
       σ d = .int (k : Nat) → ExecG P σ (findChain chains dflt k) t1 (.selected a σ1) → arms[a]? = some code →
       ExecC P σ1 code t2 o → ExecS P σ (.mtch d chains dflt arms) (t1 ++ t2) o
@@ -465,13 +494,44 @@ def lowerE : Expr → Nat → Option (Code × Value × Nat)
     -- 6df857b); then `make_enum`: result temporary, discriminant, fields
     let (ca, xs, c) ← lowerCtorArgs args c
     pure (ca ++ [.setDisc (.t c) (.enm k (List.replicate xs.length 0))] ++ storeFields (.t c) 0 xs, .move (.t c), c + 1)
+  | .list es, c => do
+    -- `list`: `tmp = List.new()`, a unit temporary for the results of `push`; every element, in
+    -- source order: the handle cloned, the element lowered and stored, pushed
+    let (ce, c') ← lowerElems es (.t c) (.t (c + 1)) (c + 2)
+    pure ([.assign (.t c) .listNew] ++ ce, .move (.t c), c')
+  | .for x l b, c => do
+    -- `for`: option temporary first; the list lowered once and materialised; index := 0;
+    -- increment block (`one := 1; index += one`), condition block (`get`, discriminant,
+    -- switch), body (`x := clone(opt.Some#0)`, the block)
+    let opt := Var.t c
+    let (cl, vl, c1) ← lowerE l (c + 1)
+    let ml := atvCode vl c1
+    let xl := atvVar vl c1
+    let c2 := atvNext vl c1
+    let idx := Var.t c2
+    let one := Var.t (c2 + 1)
+    let newl := Var.t (c2 + 2)
+    let d := Var.t (c2 + 3)
+    let (cb, _, c3) ← lowerBlock b (c2 + 4)
+    pure (cl ++ ml ++ [.assign idx (.const (.int 0)),
+            .forL [.assign newl (.clone xl), .assign opt (.listGet newl idx), .assign d (.disc opt)] d
+              ([.assign (.x x) (.cloneProj opt 0 0)] ++ cb)
+              [.assign one (.const (.int 1)), .assign idx (.idxAdd idx one)]],
+          .const .unit, c3)
   | .fstr ps, c => do
     -- `f_string`: `string = ""`; every part, in source order, becomes a string (a literal, or
     -- the value stored in a receiver temporary and passed to `to_string`), is materialised and
     -- appended
     let (cp, c') ← lowerParts ps (.t c) (c + 1)
     pure ([.assign (.t c) (.const (.str ""))] ++ cp, .move (.t c), c')
-  | _, _ => none
+
+/-- the elements of a list literal -/
+def lowerElems : Exprs → Var → Var → Nat → Option (Code × Nat)
+  | .nil, _, _, c => some ([], c)
+  | .cons e es, lst, u, c => do
+    let (ce, ve, c1) ← lowerE e (c + 1)
+    let (cs, c') ← lowerElems es lst u (c1 + 1)
+    pure ([.assign (.t c) (.clone lst)] ++ ce ++ [.assign (.t c1) ve, .push (.t c) lst (.t c1) u] ++ cs, c')
 
 /-- the parts of an f-string, appended to `acc` one after the other -/
 def lowerParts : Parts → Var → Nat → Option (Code × Nat)
